@@ -1586,7 +1586,9 @@ func (t *Terminal) UpdateList(merger *Merger) {
 	// be waiting for the mutex (e.g. at the end of an execute action) while the
 	// channel is full, and it cannot drain the channel before it gets the mutex
 	var events []tui.Event
-	if t.triggerLoad {
+	// A list computed before the input was complete may still arrive afterwards:
+	// load, zero and one are for the list of the whole input
+	if t.triggerLoad && merger.final {
 		t.triggerLoad = false
 		events = append(events, tui.Load.AsEvent())
 	}
@@ -1610,7 +1612,7 @@ func (t *Terminal) UpdateList(merger *Merger) {
 	// renderer constrains the cursor to the new list
 	t.cy = util.Constrain(t.cy, 0, util.Max(0, t.merger.Length()-1))
 	needActivation := false
-	if !t.reading {
+	if !t.reading && merger.final {
 		switch t.merger.Length() {
 		case 0:
 			zero := tui.Zero.AsEvent()
